@@ -41,7 +41,7 @@ RULE = (
     "syntactically broken variants, then up to 25 (quick) / 50 (thorough) operations out of parse "
     "(expiration 0/1/30 days, always_update_last_hit, bypass), reload, set_version (1.0, 1.1, "
     "1.0.dirty), advance_clock (1 h, 25 h, 31 d), corrupt_entry (junk, truncated, empty, missing "
-    "class, missing module), wrong_layout (models/metadata x extra column/renamed column/dropped), "
+    "class, missing module), wrong_layout (models/metadata x extra column/renamed column/dropped/same names with other declared types, without primary key or in another order), "
     "corrupt_file (text, truncated, zero length), delete_db, foreign_entry (row of another version "
     "holding another tree).  One evaluated case = one parse call together with the history before "
     "it; non-trivial = that call is a cache hit (a row for hash+version that unpickles existed "
@@ -159,7 +159,7 @@ VERSIONS = ("1.0", "1.1", "1.0.dirty")
 FOREIGN_VERSIONS = ("0.9", "2.0")  # never the current version
 HOURS = (1, 25, 24 * 31)
 ENTRY_KINDS = ("junk", "truncated", "empty", "missing_class", "missing_module")
-LAYOUT_HOW = ("extra_column", "renamed_column", "dropped")
+LAYOUT_HOW = ("extra_column", "renamed_column", "dropped", "retyped_column", "no_primary_key", "reordered_columns")
 FILE_KINDS = ("text", "truncated", "zero", "index_swap")
 TRUNC_SIZES = (10, 100, 1000, 4096, 5000, 8192)
 EVENTS = ("reload", "version_change", "expiry", "corrupt_entry", "wrong_layout", "corrupt_file", "delete_db")
@@ -178,6 +178,17 @@ CREATE = {
     ("metadata", "extra_column"): "CREATE TABLE metadata (key TEXT, value TEXT, extra TEXT, PRIMARY KEY (key))",
     ("metadata", "renamed_column"): "CREATE TABLE metadata (key TEXT, valuex TEXT, PRIMARY KEY (key))",
 }
+# same column names, different declared types / key / order: the table is rebuilt and its rows are kept
+REBUILD = {
+    ("models", "retyped_column"): "(txt_hash TEXT, pymoca_version TEXT, data BLOB, last_hit TEXT, PRIMARY KEY (txt_hash, pymoca_version))",
+    ("models", "no_primary_key"): "(txt_hash TEXT, pymoca_version TEXT, data BLOB, last_hit TIMESTAMP INTEGER)",
+    ("models", "reordered_columns"): "(pymoca_version TEXT, txt_hash TEXT, data BLOB, last_hit TIMESTAMP INTEGER, "
+    "PRIMARY KEY (txt_hash, pymoca_version))",
+    ("metadata", "retyped_column"): "(key TEXT, value INTEGER, PRIMARY KEY (key))",
+    ("metadata", "no_primary_key"): "(key TEXT, value TEXT)",
+    ("metadata", "reordered_columns"): "(value TEXT, key TEXT, PRIMARY KEY (key))",
+}
+COLUMNS = {"models": "txt_hash, pymoca_version, data, last_hit", "metadata": "key, value"}
 ALTER = {
     ("models", "extra_column"): "ALTER TABLE models ADD COLUMN extra TEXT",
     ("models", "renamed_column"): "ALTER TABLE models RENAME COLUMN data TO datax",
@@ -487,6 +498,14 @@ class Sim:
                         self.ctx.extra["noop:wrong_layout"] += 1
                         return
                     conn.execute("DROP TABLE %s" % table)
+                elif (table, how) in REBUILD:
+                    if exists:
+                        conn.execute("CREATE TABLE vf_rebuilt %s" % REBUILD[(table, how)])
+                        conn.execute("INSERT INTO vf_rebuilt (%s) SELECT %s FROM %s" % (COLUMNS[table], COLUMNS[table], table))
+                        conn.execute("DROP TABLE %s" % table)
+                        conn.execute("ALTER TABLE vf_rebuilt RENAME TO %s" % table)
+                    else:
+                        conn.execute("CREATE TABLE %s %s" % (table, REBUILD[(table, how)]))
                 elif exists:
                     conn.execute(ALTER[(table, how)])
                 else:
